@@ -99,6 +99,11 @@ func genHist(g *hx.Gen, forceTwoStep bool, a, b int) {
 		nsteps := r.Range(1, 20)
 		budget := 12000
 		for i := 0; i < nsteps; i++ {
+			if rem := limit - pos; pos <= limit && rem < 6000 && !dead && r.Chance(6, 10) {
+				// close to the end of the keystream: small steps so that histories get there without panicking early
+				xor(r.Intn(int(rem)/3 + 2))
+				continue
+			}
 			switch c := r.Intn(20); {
 			case c < 9:
 				xor(hx.Pick(r, edgeLens))
